@@ -280,3 +280,12 @@ PROPS["C12"] = dict(
          "structural; and the crate's own panic lints (unwrap/panic) hold for all library code (nothing else ever runs clippy).",
     note="Guard presence is per component, not per cycle. Indexing/expect sites, arithmetic panics and the time bound of guarded "
          "fixpoints are not decided. Trusted: clippy, the guard and carrier tables in rules/c12.py.")
+
+PROPS["C37"] = dict(
+    module="c37", func="run", level="other", crates=["emmylua_parser_desc"],
+    technique="typestate (must-consume) check on the CFG for a panicking-Drop guard type + must-pass-through + explicit-panic audit",
+    text="Decides three structural clauses of 'highlighting is total and in order': every BacktrackPoint (Drop panics) is committed "
+         "or rolled back on every path of every markup parser function, the public entry sorts its items on every path, and the "
+         "explicit panics are discharged by audited invariants.",
+    note="NOT decided: that produced ranges lie inside the description, and the ~70 indexing/slicing sites over line arrays "
+         "(value-level line arithmetic; not audited). Trusted: rustc MIR (pre-drop-elaboration Drop terminators), emmyfacts.")
